@@ -128,7 +128,7 @@ Verdict eval_c11(const Case &c) {
                 P want = pinPos(c.pins[i], shapes[c.pins[i].shape]);
                 if (got.x != want.x || got.y != want.y) v.fail(fmt("%s: pin %zu of shape %d is at (%.12g,%.12g), its offsets put it at (%.12g,%.12g)", phase.c_str(), i, c.pins[i].shape, got.x, got.y, want.x, want.y), "pin-position");
             }
-            std::map<std::pair<double, double>, int> exclUse;
+            std::map<std::tuple<int, double, double>, int> exclUse;
             for (size_t i = 0; i < cn.size() && v.ok; i++) {
                 const ConnSpec &k = c.conns[i];
                 std::vector<P> disp = toPts(cn[i]->displayRoute()), raw = toPts(cn[i]->route());
@@ -146,8 +146,11 @@ Verdict eval_c11(const Case &c) {
                             P pp = pinPos(c.pins[q], shapes[shape]);
                             if (pp == end) { hit = (int)q; dirsAtPos |= c.pins[q].dirs; excl |= c.pins[q].exclusive; }
                         }
-                        if (hit < 0) { v.fail(fmt("%s: connector %zu end %d is at (%.12g,%.12g), which is not the position of any pin of class %d on shape %d; route %s", phase.c_str(), i, e, end.x, end.y, cls, shape, ptsStr(disp).c_str()), "not-at-a-pin"); break; }
-                        if (excl) exclUse[{end.x * 1e6 + shape, end.y}]++;
+                        if (hit < 0) {
+                            // known finding F41: the end sits at the centre of the attached shape (the dummy vertex libavoid routes pin classes through), i.e. no pin was assigned
+                            Box bb = bbox(shapes[shape]); bool centre = end.x == (bb.x0 + bb.x1) / 2 && end.y == (bb.y0 + bb.y1) / 2;
+                            v.fail(fmt("%s: connector %zu end %d is at (%.12g,%.12g)%s, which is not the position of any pin of class %d on shape %d; route %s", phase.c_str(), i, e, end.x, end.y, centre ? " [the centre of that shape]" : "", cls, shape, ptsStr(disp).c_str()), centre ? "F41-pin-end-at-shape-centre" : "not-at-a-pin"); break; }
+                        if (excl) exclUse[std::make_tuple(shape, end.x, end.y)]++;
                         // A pin lying exactly on the routing boundary (inside offset 0 and buffer 0) can also be reached by sliding
                         // along the shape's edge, whose visibility line passes through it; the direction clause is judged where the pin
                         // is off that boundary.
@@ -175,9 +178,11 @@ Verdict eval_c11(const Case &c) {
             }
             // exclusive pins are used by at most as many connectors as there are pins at that position
             for (auto &u : exclUse) {
-                int cap = 0;
-                for (size_t q = 0; q < c.pins.size(); q++) { P pp = pinPos(c.pins[q], shapes[c.pins[q].shape]); if (c.pins[q].exclusive && pp.x * 1e6 + c.pins[q].shape == u.first.first && pp.y == u.first.second) cap++; }
-                if (v.ok && u.second > cap) v.fail(fmt("%s: %d connector ends share the exclusive pin position (%g,%g) [key %.0f] that has %d pin(s)", phase.c_str(), u.second, std::fmod(u.first.first, 1e6) > 5e5 ? std::fmod(u.first.first, 1e6) - 1e6 : (u.first.first - std::fmod(u.first.first, 1.0)) / 1e6, u.first.second, u.first.first, cap), "exclusive-pin-shared");
+                int cap = 0, sh = std::get<0>(u.first); double ux = std::get<1>(u.first), uy = std::get<2>(u.first);
+                for (size_t q = 0; q < c.pins.size(); q++) { P pp = pinPos(c.pins[q], shapes[c.pins[q].shape]); if (c.pins[q].exclusive && c.pins[q].shape == sh && pp.x == ux && pp.y == uy) cap++; }
+                // known finding F41 in disguise: a connector that fell back to the shape's centre looks as if it used a pin placed at the centre
+                Box bb = bbox(shapes[sh]); bool centre = ux == (bb.x0 + bb.x1) / 2 && uy == (bb.y0 + bb.y1) / 2;
+                if (v.ok && u.second > cap) v.fail(fmt("%s: %d connector ends share the exclusive pin position (%g,%g) of shape %d%s that has %d pin(s)", phase.c_str(), u.second, ux, uy, sh, centre ? " [the centre of that shape]" : "", cap), centre ? "F41-pin-end-at-shape-centre" : "exclusive-pin-shared");
             }
         };
         for (auto &m : c.early) applyMove(m);
